@@ -10,7 +10,7 @@ from ..machine import GenTask, Pool, end_task, simplify_ops_terms
 PROP = 'C15'
 LEVEL = 'exploration'
 CASES_ARE_COUNTED = True
-TIERS = {'quick': {'runs': 6000, 'budget_s': 50}, 'thorough': {'runs': 1000000, 'budget_s': 900}}
+TIERS = {'quick': {'runs': 4000, 'budget_s': 50}, 'thorough': {'runs': 1000000, 'budget_s': 900}}
 RULE = ('one run = one seeded history of NEWVAR / PUSH / POP(close|drop|resume) / SAVE(term) / FAULT (the recursion limit strikes inside get_value or to_python of a 600-deep term; handled) on one engine (half of the plans from the template '
         '"bind X to a term with variables first, bind those variables afterwards in a seeded order, directly or through chains, SAVE X, pop '
         'everything"), optionally followed by a compiled program p(X) whose body builds one ground term by a seeded permutation of unifications, '
@@ -346,14 +346,20 @@ def run_program(prog, log):
     at_answer = []
     q = yp.query('p', [x])
     collected = []
-    for _ in q:
-        collected.append(x.get_value())
-        at_answer.append(to_python(x))
+    try:
+        for _ in q:
+            collected.append(x.get_value())
+            at_answer.append(to_python(x))
+    except Exception as e:
+        log.violation('program-answer-misses-binding', {'program': prog['source'], 'answers_so_far': [pyj(a) for a in at_answer],
+                                                        'exception_at_next_answer': type(e).__name__, 'expected': [pyj(w) for w in want]})
+        return
     log.ev('collect', len(collected))
     log.key(('program', prog['source'].split('\n')[0]))
     if [pyj(a) for a in at_answer] != [pyj(w) for w in want]:
-        # the answers themselves are C01's subject; without them there is nothing to re-read
-        log.count('program_answers_unexpected')
+        # the body is nothing but unifications that build one ground term, in a seeded order: whatever that
+        # order, the value at the answer must show every binding at every depth
+        log.violation('program-answer-misses-binding', {'program': prog['source'], 'at_answer': [pyj(a) for a in at_answer], 'expected': [pyj(w) for w in want]})
         return
     for val in collected:
         if raw_has_variable(val):
